@@ -6,6 +6,7 @@ import (
 	"math"
 	"strconv"
 	"strings"
+	"unicode"
 
 	"github.com/woodsbury/decimal128"
 	"github.com/woodsbury/jmespath/internal/verifmc/core"
@@ -96,7 +97,35 @@ func c03ByteDocs() ([]any, []string) {
 	return raws, texts
 }
 
+// c03CodePoints: every Unicode scalar value (quick: every code point below U+3000 and the first and last 64 of every
+// 4096-block) as the first character of a token, in five positions.
+func c03CodePoints(r *core.Run) {
+	raws, texts := c03ByteDocs()
+	n := 0
+	for c := rune(0x80); c <= unicode.MaxRune; c++ {
+		if c >= 0xD800 && c <= 0xDFFF {
+			continue
+		}
+		if !r.Thorough() && c >= 0x3000 && c&0xFFF >= 64 && c&0xFFF < 0xFC0 {
+			continue
+		}
+		n++
+		if !r.Mine(n / 64) {
+			continue
+		}
+		ch := string(c)
+		for _, e := range []string{ch, "a." + ch, "a " + ch + " b", "[" + ch + "]", ch + "(a)", "a" + ch, "$" + ch, "{" + ch + ": a}", "a[?" + ch + "]"} {
+			r.Add("states", 1)
+			r.Begin(map[string]any{"expr": e, "doc": ""})
+			if v := c03Expr(r, e, "code-points", raws[:1], texts[:1]); v != nil {
+				r.Violate(v)
+			}
+		}
+	}
+}
+
 func c03RunBytes(r *core.Run) {
+	c03CodePoints(r)
 	L := 4
 	if r.Thorough() {
 		L = 5
@@ -307,6 +336,16 @@ func c03ValueExprs(thorough bool) []string {
 					}
 				}
 				add(name + "(" + strings.Join(alt, ", ") + ")")
+				// ... and with a well-typed object or array beside it
+				for _, lit := range []string{"`{\"k\":1}`", "`[\"b\",\"a\"]`", "`[[\"k\",1]]`"} {
+					alt2 := append([]string{}, args...)
+					for j := range alt2 {
+						if j != i && !sig.ExprAt(j) {
+							alt2[j] = lit
+						}
+					}
+					add(name + "(" + strings.Join(alt2, ", ") + ")")
+				}
 			}
 			add(name + "(" + strings.Repeat("@, ", n-1) + "@)")
 		}
